@@ -253,3 +253,56 @@ from contracts import c14_cemi_routing as _c14  # noqa: E402
 from pyvc.api import rely_on  # noqa: E402
 
 rely_on("C33", _c14.send_completes_only_after_a_later_confirmation)
+
+
+# ------------------------------------------------------------------ the decoding step of the consumer loop returns normally
+# _telegram_consumer calls group_address_dpt.set_decoded_data() for every telegram outside its own error
+# handling (RecDecoder above): an exception there ends the consumer task with telegrams still queued, and join()
+# and stop() never return. The transcoders raise only CouldNotParseTelegram / ConversionError (proved per
+# transcoder class in C07, where the same function is also run with every real class).
+
+from xknx.core.group_address_dpt import GroupAddressDPT as _GroupAddressDPT  # noqa: E402
+from xknx.exceptions import CouldNotParseTelegram as _CouldNotParseTelegram  # noqa: E402
+from xknx.telegram.address import InternalGroupAddress as _InternalGroupAddress  # noqa: E402
+from xknx.telegram.apci import GroupValueRead as _GroupValueRead, GroupValueResponse as _GroupValueResponse, GroupValueWrite as _GroupValueWrite  # noqa: E402
+from xknx.dpt import DPTArray as _DPTArray, DPTBinary as _DPTBinary  # noqa: E402
+
+
+class AnyTranscoder:
+    """A datapoint type by contract (C07): from_knx returns a value or raises one of its two declared errors."""
+
+    @classmethod
+    def from_knx(cls, payload):
+        k = nondet(3)
+        if k == 1:
+            raise _CouldNotParseTelegram("wrong payload type or length (contract)")
+        if k == 2:
+            raise ConversionError("value not supported (contract)")
+        return ("decoded", payload)
+
+    @classmethod
+    def dpt_name(cls):
+        return "AnyTranscoder"
+
+
+@lemma("C33", params=dict(kind=Choice("write", "response", "read"), binary=Bool(), internal=Bool(), configured=Bool(), failed_before=Bool(), raw=Int(0, 0xFFFF)))
+def the_decoding_step_never_raises(kind, binary, internal, configured, failed_before, raw):
+    """GroupAddressDPT.set_decoded_data, any group telegram, transcoder configured or not, first or repeated
+    decoding error: returns normally; decoded_data is set exactly when the transcoder returned a value."""
+    table = _GroupAddressDPT()
+    dst = _InternalGroupAddress("i-x") if internal else GroupAddress(raw)
+    if configured:
+        table._ga_dpts[dst.raw] = AnyTranscoder
+    if failed_before:
+        table.ga_decoding_error.add(dst)
+    value = _DPTBinary(1) if binary else _DPTArray((9,))
+    payload = _GroupValueRead() if kind == "read" else (_GroupValueWrite(value) if kind == "write" else _GroupValueResponse(value))
+    t = Telegram(destination_address=dst, payload=payload)
+    table.set_decoded_data(t)
+    if t.decoded_data is not None:
+        assert configured and kind != "read" and t.decoded_data.transcoder is AnyTranscoder and t.decoded_data.value == ("decoded", value)
+
+# ... and that every real transcoder keeps to those two outcomes (C07) is an obligation of this property too
+from contracts import c07_dpt_decode as _c07  # noqa: E402
+
+rely_on("C33", _c07.dpt_from_knx_declared_errors)
